@@ -38,6 +38,8 @@ func main() {
 		os.Exit(checkMain(*prop, *tier))
 	case "worker":
 		os.Exit(workerMain(*prop, *tier, *worker, *seed, *out))
+	case "hashlog":
+		os.Exit(hashlogMain(*file))
 	case "replay":
 		os.Exit(replayMain(*file, *verbose))
 	case "run":
